@@ -392,6 +392,9 @@ S5_SKELETONS = {
     'setext-in-item': '- {}\n  ===\n- b\n', 'code-in-quote': '> ```\n> {}\n> ```\n>\n>     x\n', 'html-block': '<div>\n{}\n</div>\n\np <b>i</b>\n',
     'nested': '1. a\n   - {}\n     > q\n2. c\n', 'inline-emph': '*a **{}** `c`* ~~d~~\n', 'inline-links': '[{}](/u "t") ![i](/s) <http://x.y>\n', 'inline-breaks': 'a \\* {}  \nf\ng\n',
     'empty-containers': '>\n\n-\n\n#\n\n{}\n', 'ref-links': '[{}][l] [l][] [l]\n\n[l]: /u "t"\n',
+    # the SAME content twice in one document (a token, leaf or result shared between two places is not a tree)
+    'twice-escape': '\\{0} and \\{0}\n\n\\{0}\n', 'twice-text': '*a{0}* *a{0}*\n\na{0}\n', 'twice-code': '`{0}x` `{0}x`\n\n    {0}x\n\n    {0}x\n',
+    'twice-cell': '|{0}|{0}|\n|-|-|\n|{0}|{0}|\n', 'twice-item': '- {0}\n- {0}\n\n> {0}\n\n> {0}\n', 'twice-link': '[{0}](/u) [{0}](/u) <http://{0}> <http://{0}>\n',
 }
 
 
